@@ -565,6 +565,16 @@ func runC14(c *Ctx) {
 		c.Eval(1)
 		c.Nontrivial(J{"p": i})
 		ok := true
+		// the long-lived evaluator (it has by now evaluated other pods at other levels and versions) against one constructed
+		// for this evaluation alone
+		if fev, err := policy.NewEvaluator(policy.DefaultChecks()); err == nil {
+			if alone := fev.EvaluatePod(lv, &p.ObjectMeta, &p.Spec); !reflect.DeepEqual(first, alone) {
+				ok = false
+				c.Violate(Finding{Desc: "an evaluator that has evaluated other pods, levels and versions before answers differently from a freshly constructed one", Key: "nondeterministic-history",
+					Input: J{"level": lvl, "minor": m, "pod": cp}, Go: J{"longLived": first, "fresh": alone}})
+			}
+			c.Eval(1)
+		}
 		for rep := 0; rep < 8; rep++ {
 			again := ev.EvaluatePod(lv, &p.ObjectMeta, &p.Spec)
 			c.Eval(1)
